@@ -33,11 +33,11 @@ INF = float("inf")
 
 
 def plan(tier):
-    return {"shards": 4, "timeout": 600} if tier == "quick" else {"shards": 16, "timeout": 3000}
+    return {"shards": 4, "timeout": 600} if tier == "quick" else {"shards": 16, "timeout": 3400}
 
 
 def ncases(tier):
-    return 6000 if tier == "quick" else 12000
+    return 6000 if tier == "quick" else 60000
 
 
 class Item:
